@@ -63,6 +63,28 @@ def _long_matrix(case):
     lab = [(a * k + b) % p for k in range(p)]
     M = np.zeros((p, p))
     vals = [1.0, -1.0, 0.5, -2.0, 1e-13, -3.0]
+    if case.get("band"):
+        # banded variant: node k has the w previous nodes as parents (w^p directed walks, still trivially acyclic)
+        w = case["band"]
+        for k in range(p):
+            for d in range(1, w + 1):
+                if k - d >= 0:
+                    M[lab[k - d], lab[k]] = vals[(k + d) % len(vals)]
+        if case["cyclic"]:
+            M[lab[p - 1], lab[case.get("back_to", 0)]] = -0.5
+        return M
+    if case.get("groups"):
+        # dense variant: consecutive groups completely connected (group k -> group k+1), optionally closed into a "thick"
+        # cycle (last group -> first): the number of walks explodes (m^g per turn) while the structure stays trivial
+        gs = case["groups"]
+        bounds = np.cumsum([0] + gs)
+        for k in range(len(gs) - 1 + (1 if case["cyclic"] else 0)):
+            src = range(bounds[k], bounds[k + 1])
+            k2 = (k + 1) % len(gs)
+            for i in src:
+                for j in range(bounds[k2], bounds[k2 + 1]):
+                    M[lab[i], lab[j]] = vals[(i + j) % len(vals)]
+        return M
     for k in range(p - 1):
         M[lab[k], lab[k + 1]] = vals[k % len(vals)]
     if case["cyclic"]:
@@ -78,6 +100,10 @@ def check_long(case):
     p = len(M)
     cyclic = case["cyclic"]
     what = "directed path on %d nodes%s" % (p, " closed into a cycle" if cyclic else "")
+    if case.get("band"):
+        what = "banded graph on %d nodes (each node has the %d previous ones as parents)%s" % (p, case["band"], " plus one edge back" if cyclic else "")
+    if case.get("groups"):
+        what = "%d completely connected consecutive groups of sizes %s%s" % (len(case["groups"]), sorted(set(case["groups"])), " closed into a cycle" if cyclic else "")
     got = must(lib(utils.is_dag, M), "is_dag(%s)" % what)
     if bool(got) != (not cyclic):
         raise Violation("is_dag_wrong", "is_dag returned %r for a %s" % (got, what))
@@ -313,6 +339,10 @@ def plan(tier, seed):
     jobs = [{"sub": "exh_p123", "seed": seed, "cost": 5}, {"sub": "byte_twins", "seed": seed, "cost": 3}]
     for p in ([1100, 1500, 2500] if tier == "quick" else [1100, 1500, 2500, 4000, 6000]):
         jobs.append({"sub": "long_path", "seed": seed, "p": p, "cost": 9 + p // 500})
+    for k, gs in enumerate([[34, 34, 34], [2] * 65, [30, 30, 30, 30], [50] * 6, [7] * 20] + ([[64] * 8, [3] * 100] if tier == "thorough" else [])):
+        jobs.append({"sub": "long_path", "seed": seed, "p": sum(gs), "groups": gs, "cost": 10})
+    for (pb, w) in [(200, 6), (298, 8)] + ([(500, 12)] if tier == "thorough" else []):
+        jobs.append({"sub": "long_path", "seed": seed, "p": pb, "band": w, "cost": 10})
     n4 = 3 ** 12
     shards4 = 48
     for k in range(shards4):
@@ -350,6 +380,12 @@ def run(job):
         a = next(x for x in range(p // 3 + job["seed"] % 7, p) if np.gcd(x, p) == 1)
         for cyclic, back in ((False, 0), (True, 0), (True, p // 2)):
             case = {"sub": "long_path", "p": p, "a": int(a), "b": 17 % p, "cyclic": cyclic, "back_to": back}
+            if job.get("groups"):
+                if back:
+                    continue
+                case["groups"] = job["groups"]
+            if job.get("band"):
+                case["band"] = job["band"]
             try:
                 lab = check(case)
                 acc.record(case, lab, True, by_construction=True)
